@@ -1,0 +1,12 @@
+//go:build verif
+
+package peerstore
+
+// Test-only seams for the C27 runtime monitor: run the LocalStore cleanup
+// passes on demand (in production they are driven by wall-clock tickers).
+
+// VerifC27CleanupExpiredPeerEntries runs one cleanupExpiredPeerEntries pass.
+func (s *LocalStore) VerifC27CleanupExpiredPeerEntries() { s.cleanupExpiredPeerEntries() }
+
+// VerifC27CleanupExpiredPeerGroups runs one cleanupExpiredPeerGroups pass.
+func (s *LocalStore) VerifC27CleanupExpiredPeerGroups() { s.cleanupExpiredPeerGroups() }
